@@ -522,6 +522,7 @@ func genRace(r *lib.Rng, big bool) Spec {
 	rc.How = lib.Pick(r, []string{"retrieve", "retrieve", "retrieve-outs", "store"})
 	if sp.Compress {
 		rc.Files = 1
+		rc.FileSize = max(rc.FileSize, 1) // an empty cache is below every high water mark
 		if rc.How == "retrieve-outs" {
 			rc.How = "retrieve" // retrieving outputs from a compressed entry needs a real tarball
 		}
@@ -623,11 +624,18 @@ func executeRace(spec Spec) *run {
 	go func() { done <- dc.Clean(spec.High, spec.Low) }()
 	ro := r.obs.Race
 	deadline := time.Now().Add(60 * time.Second)
-	for exists(victims[0]) {
-		if time.Now().After(deadline) {
-			break
+	finished := false
+	for exists(victims[0]) && !finished {
+		select {
+		case r.obs.Total = <-done:
+			finished = true // clean returned without evicting the first entry of its queue
+		default:
+			if time.Now().After(deadline) {
+				r.why = "clean neither evicted the first entry nor returned within 60 s"
+				return r
+			}
+			runtime.Gosched()
 		}
-		runtime.Gosched()
 	}
 	ro.Started = !exists(victims[0])
 	if os.Getenv("VERIF_C14_DEBUG") != "" {
@@ -655,11 +663,13 @@ func executeRace(spec Spec) *run {
 	if ro.Hit {
 		ro.KHi = min(ro.KHi, rs.Pos)
 	}
-	select {
-	case r.obs.Total = <-done:
-	case <-time.After(120 * time.Second):
-		r.why = "clean did not finish within 120 s"
-		return r
+	if !finished {
+		select {
+		case r.obs.Total = <-done:
+		case <-time.After(120 * time.Second):
+			r.why = "clean did not finish within 120 s"
+			return r
+		}
 	}
 	phase("clean done")
 	var after []lst
@@ -709,7 +719,7 @@ func coqRace(o *Obs) string {
 // proves nothing about the re-check and is only judged by the general oracle; hits are counted.
 func runRaces(c *lib.Ctx) {
 	n := c.Scale(36, 400)
-	hits, tries := 0, 0
+	hits, tries, modelCases := 0, 0, 0
 	for i := 0; i < n; i++ {
 		rg := c.Rng.Fork()
 		sp := genRace(rg, i%2 == 1)
@@ -741,7 +751,9 @@ func runRaces(c *lib.Ctx) {
 		key := fmt.Sprint("race", *sp.Race, sp.Compress)
 		// the model side: a Retrieve is one markDir call; sort.Slice agrees with the model's insertion sort
 		// because the access times are all more than the grace period apart
-		if ro.Hit && sp.Race.How != "store" && len(res.obs.Items) <= 140 {
+		// (the walk of the model is quadratic in the number of items: 0.3-1.5 s per case, so only some of them)
+		if ro.Hit && sp.Race.How != "store" && len(res.obs.Items) <= 140 && modelCases < c.Scale(10, 80) {
+			modelCases++
 			c.Case(coqRace(&res.obs), res.obs.slim(), key, true)
 		} else {
 			c.Eval(res.obs.slim(), key, ro.Hit)
